@@ -35,3 +35,12 @@ pub fn timing_constants() -> Vec<(&'static str, u64)> {
 
 pub use crate::chain::channelmonitor::verif_hooks as channelmonitor;
 pub use crate::ln::channelmanager::verif_hooks as channelmanager;
+
+// ---------------------------------------------------------------------------------------------
+// Monitor-update pipeline (update ids, in-flight / blocked queues, monitor_pending_* fields)
+// ---------------------------------------------------------------------------------------------
+
+pub use crate::chain::channelmonitor::verif_hooks_monupd::update_step_kinds;
+pub use crate::ln::channel::verif_hooks_monupd::MonUpdView;
+
+pub use crate::ln::channelmanager::verif_hooks_monupd::monupd_view;
